@@ -193,7 +193,7 @@ theorem resolveUrl_eq (url : Str) (rel : Bool) : resolveUrl url rel = .ok (resol
     rfl
 
 /-- what `parse_facebook_url` computes, once the exceptions that cannot happen are out of the
-way: the routing of the split url it resolved -/
+way: the routing of the split url it resolved, repeated slashes of the path collapsed -/
 theorem parse_facebook_url_eq (url : Str) (rel : Bool) :
     parse_facebook_url url rel =
       match resolved url rel with
@@ -201,7 +201,7 @@ theorem parse_facebook_url_eq (url : Str) (rel : Bool) :
       | some u =>
         match safe_urlsplit u with
         | none => .ok none
-        | some sp => parseSplit sp := by
+        | some sp => parseSplit (squeezePath sp) := by
   unfold parse_facebook_url
   rw [resolveUrl_eq]
   cases resolved url rel with
